@@ -5,6 +5,7 @@ import (
 	"context"
 	"errors"
 	"fmt"
+	"math"
 	"net/http"
 	"runtime"
 	"strings"
@@ -27,7 +28,7 @@ func c09Msg(id uint64, size int, squeeze bool) *gen.Msg {
 }
 
 func c09(run *ev.Run) int {
-	run.SetRule("limit cases = N in {2,10,100,1000,65536,131072} (thorough: 13 values from 1 to 1 MiB) x encoded size in {N-1,N,N+1,10N} (exact, proto codec; JSON sampled) x {identity, gzip} x position {first,middle,last} of a 3-message stream (or the single unary message) x 3 protocols x 4 kinds x {handler-side limit, client-side limit}; hostile cases = lying prefixes (2^32-1, 2^31, N+1 declared with 3 bytes present; <=N declared with fewer present), 32 MiB envelopes with reserved flags, 64/256 MiB gzip bombs (as data messages, as compressed Connect end-of-stream messages and gRPC-Web trailer frames, as unary Connect error bodies), valid small bodies under a Content-Length unrelated to them (2^62 ... unknown), each measured alone on one goroutine with runtime.MemStats.TotalAlloc; oracle: delivered <=> encoded size <= N (wire and decompressed; raw<=N<wire is either), failing call has invalid_argument/resource_exhausted, earlier messages delivered and none after, allocation for one message <= 16N + slack; distinct by (N, size class, compression class, position, protocol, kind, side)")
+	run.SetRule("limit cases = N in {2,10,100,1000,65536,131072} (thorough: 13 values from 1 to 1 MiB; plus limits at the top of the integer range, under which everything must be delivered) x encoded size in {N-1,N,N+1,10N} (exact, proto codec; JSON sampled) x {identity, gzip} x position {first,middle,last} of a 3-message stream (or the single unary message) x 3 protocols x 4 kinds x {handler-side limit, client-side limit}; hostile cases = lying prefixes (2^32-1, 2^31, N+1 declared with 3 bytes present; <=N declared with fewer present), 32 MiB envelopes with reserved flags, 64/256 MiB gzip bombs (as data messages, as compressed Connect end-of-stream messages and gRPC-Web trailer frames, as unary Connect error bodies), valid small bodies under a Content-Length unrelated to them (2^62 ... unknown), each measured alone on one goroutine with runtime.MemStats.TotalAlloc; oracle: delivered <=> encoded size <= N (wire and decompressed; raw<=N<wire is either), failing call has invalid_argument/resource_exhausted, earlier messages delivered and none after, allocation for one message <= 16N + slack; distinct by (N, size class, compression class, position, protocol, kind, side)")
 	Ns := []int{2, 10, 100, 1000, 65536, 131072}
 	if !run.Quick() {
 		Ns = []int{1, 2, 3, 10, 50, 100, 500, 1000, 4096, 65535, 65536, 131072, 1 << 20}
@@ -55,6 +56,7 @@ func c09(run *ev.Run) int {
 		j := jobs[ji]
 		c09Limit(run, j.N, j.proto, j.kind, j.side, j.gz)
 	})
+	c09HugeLimits(run)
 	// hostile, measured one at a time
 	if !run.Replaying() || strings.Contains(run.ReplayKey(), "/hostile/") {
 		c09Hostile(run)
@@ -467,6 +469,71 @@ func c09Hostile(run *ev.Run) {
 			}
 			if cl.Err == nil {
 				run.Violation(key+"/accepted", "non-200 response reported as success", detail)
+			}
+		}
+	}
+}
+
+// c09HugeLimits: limits at the top of the integer range ("effectively
+// unlimited", a value some applications configure on purpose). Nothing is over
+// such a limit, so every message is delivered intact - the arithmetic around
+// the limit (limit+1 and the like) must not wrap.
+func c09HugeLimits(run *ev.Run) {
+	limits := []int{math.MaxInt, math.MaxInt - 1, math.MaxInt32, math.MaxInt32 + 1, 1 << 40}
+	for _, N := range limits {
+		for _, protocol := range svc.Protocols {
+			for _, side := range []string{"handler", "client"} {
+				for _, gz := range []bool{false, true} {
+					key := fmt.Sprintf("c09/huge-limit/N=%d/%s/%s/gz=%v", N, protocol, side, gz)
+					if !run.Want(key) {
+						continue
+					}
+					var hopts []connect.HandlerOption
+					copts := svc.ProtoOpts(protocol, "proto")
+					if side == "handler" {
+						hopts = append(hopts, connect.WithReadMaxBytes(N))
+					} else {
+						copts = append(copts, connect.WithReadMaxBytes(N))
+					}
+					if gz {
+						copts = append(copts, connect.WithSendGzip())
+					} else {
+						hopts = append(hopts, connect.WithCompressMinBytes(1<<30))
+					}
+					reg := svc.NewRegistry()
+					cs := svc.NewClientSet(&wire.Loopback{Handler: svc.Mux(svc.Handlers(reg, hopts...))}, "http://verif.local", copts...)
+					for _, kind := range svc.Kinds {
+						msgs := []*gen.Msg{gen.New(1, 10, true), gen.Zero(), gen.New(2, 2000, true), gen.New(3, 70000, false)}
+						sends, replies := msgs, []*gen.Msg{gen.New(9, 300, true), gen.New(10, 5000, true)}
+						if kind == svc.Unary || kind == svc.ServerStream {
+							sends = sends[2:3]
+						}
+						if kind == svc.Unary || kind == svc.ClientStream {
+							replies = replies[:1]
+						}
+						prog := &svc.Program{Steps: []svc.Step{{Op: "recvall"}}}
+						for _, m := range replies {
+							prog.Steps = append(prog.Steps, svc.Step{Op: "send", Msg: m})
+						}
+						call := reg.New("c09h", prog)
+						cl := cs.Do(context.Background(), kind, call.ID, nil, sends)
+						reg.Drop(call)
+						run.Eval(fmt.Sprintf("huge-limit|%d|%s|%s|%s|%v", N, protocol, kind, side, gz))
+						run.Count("huge_limit.calls", 1)
+						detail := map[string]any{"N": N, "protocol": protocol, "kind": kind.String(), "side": side, "gzip": gz, "client_err": errStr(cl.Err)}
+						if cl.Err != nil {
+							run.Violation(key+"/"+kind.String()+"/failed", fmt.Sprintf("a call whose messages are far below the read limit %d failed: %v", N, cl.Err), detail)
+							continue
+						}
+						if same, why := gen.SameSeq(call.Log.Received, sends); !same {
+							run.Violation(key+"/"+kind.String()+"/request", "messages below the limit were not delivered intact to the handler: "+why, detail)
+							continue
+						}
+						if same, why := gen.SameSeq(cl.Msgs, replies); !same {
+							run.Violation(key+"/"+kind.String()+"/response", "messages below the limit were not delivered intact to the client: "+why, detail)
+						}
+					}
+				}
 			}
 		}
 	}
